@@ -366,6 +366,47 @@ def marker_data(m):
     return d
 
 
+def susp_spec(rng, segs, lim):
+    """partitions of the header for the suspending-source reads"""
+    hlen = 2 + sum(4 + len(d) for _, d in segs)
+    if hlen <= 1500:
+        return "every:1:%d" % (hlen + 2)
+    pts, off = set(), 2
+    for code, d in segs:
+        for k in range(off, off + 7):                     # marker code, length word, first data bytes
+            pts.add(k)
+        L = lim.get(code, 0)
+        if is_appcom(code) and L:
+            for k in (off + 4 + min(L, len(d)) + e for e in (-1, 0, 1)):   # end of the saved part
+                pts.add(k)
+        for k in (off + 4 + len(d) + e for e in (-2, -1)):
+            pts.add(k)
+        off += 4 + len(d)
+    parts = [str(k) for k in sorted(pts) if 0 < k < hlen + 2]
+    for _ in range(40):                                    # random partitions with 2..6 cuts
+        cuts = sorted(set(rng.range(1, hlen + 1) for _ in range(rng.range(2, 6))))
+        parts.append("+".join(str(k) for k in cuts))
+    for _ in range(10):                                    # small fixed-size chunks over a window
+        st, step = rng.range(1, max(1, hlen - 200)), rng.range(1, 7)
+        parts.append("+".join(str(st + i * step) for i in range(40)))
+    return "pts:" + "/".join(parts)
+
+
+def judge_rds(ctx, R, c, h, m, stream):
+    """h: harness rds line; every partition must give the one-buffer header line"""
+    main = h.split(" || ")[0]
+    items = main.split()
+    bad = [it.split("=")[0] for it in items if "=" in it and it.split("=")[1][:1] != "S"]
+    failed = bool(bad) or not items
+    if failed:
+        detail = h.split(" || ")[1][:400] if " || " in h else h[:200]
+        ctx.violation("reading the header through a suspending data source with the data split at %s does not give the markers / header "
+                      "that the one-buffer read gives: %s" % (bad[:6], detail), {"case": c, "bad_partitions": bad[:20], "impl": detail},
+                      signature="suspend-split:%s" % stream)
+    R.corr("suspend", "restart points / results per partition", None if m in (None, "-") else m.split(" || ")[0], main, c, failed)
+    ctx.count("%s-suspend" % stream, len(items), ("susp", len(items), hash(main) & 0xffffffff))
+
+
 def run_mk(ctx, R, cases):
     datas = [[(m[0], marker_data(m)) for m in c["markers"]] for c in cases]
     lines = []
@@ -405,6 +446,11 @@ def run_mk(ctx, R, cases):
                 dl = min(len(d), L)
                 exp.append(" m %d %d %d %s ;" % (code, len(d), dl, fnv(d[:dl])))
         meta.append((ci, "rd", "".join(exp)))
+        # the same header through a suspending source: every split position when the header is short, else every
+        # position around each segment start / length word / save limit, plus random partitions
+        spec = susp_spec(SplitMix64(c["markers"][0][2] ^ 0x5a5a), segs, lim)
+        line2 = "rds %s %s %s" % (cfgs, spec, rebuild(segs, tail[:64]).hex())
+        hl.append(line2); ml.append(line2); meta.append((ci, "rds", None))
         for code, d in ds:
             ctx.count("mk-code-%d" % code, 1, ("mk", code, len(d), lim.get(code, 0)))
     hres = R.harness(hl, lambda i: cases[meta[i][0]])
@@ -417,6 +463,8 @@ def run_mk(ctx, R, cases):
             R.corr("marker-write", "length limit", m, "err", c)
         elif what == "emit":
             R.corr("marker-write", "marker bytes", m, exp.hex() if exp else "-", c)
+        elif what == "rds":
+            judge_rds(ctx, R, c, h, m, "marker")
         else:
             failed = False
             parts = h.split(" |")
@@ -863,6 +911,113 @@ def run_xf(ctx, R, cases):
             R.corr("copy-read", "rd", m, h, c, failed)
 
 
+# ----------------------------------------------------------- copying: histories on one handle
+DEMO_HISTORIES = [[("t", 2, 0), ("t", 1, 0), ("t", 3, 0), ("t", 4, 0), ("t", 2, 1)], [("h", 2), ("t", 3, 0)], [("h", 4), ("t", 1, 0)],
+                  [("t", 4, 0), ("t", 1, 0)], [("t", 3, 0), ("t", 4, 0)], [("t", 2, 0), ("t", 0, 0), ("t", 4, 0)]]
+
+
+def xh_cases(ctx):
+    """sequences of (copy option, TJXOPT_COPYNONE, header reads) on ONE tj handle / ONE jpeg_decompress_struct"""
+    rng = ctx.rng
+    cases = []
+    hists = [list(h) for h in DEMO_HISTORIES]
+    for i in range(ctx.n(24, 300)):
+        st = [rng.choice([("t", 2, 0), ("t", 2, 0), ("t", 3, 0), ("t", 4, 0), ("h", 2), ("h", 4), ("t", 1, 0)])]   # wider first
+        for _ in range(rng.range(1, 4)):
+            st.append(rng.choice([("t", rng.range(0, 4), 0), ("t", rng.range(0, 4), 0), ("t", rng.range(0, 4), 1), ("h", rng.choice([0, 1, 2, 3, 4]))]))
+        if all(x[0] == "h" for x in st):
+            st.append(("t", rng.range(1, 4), 0))
+        hists.append(st)
+    for hi, st in enumerate(hists):
+        cs = rng.choice(["gray", "ycc", "rgb", "cmyk", "ycck"])
+        ms = [[254, rng.range(1, 60), rng.next(), "rand"], [225, rng.range(0, 80), rng.next(), "rand"], [229, rng.range(0, 40), rng.next(), "rand"]]
+        for _ in range(rng.range(0, 3)):
+            code = rng.choice([254, 224, 226, 227, 237, 238, 239])
+            style = "rand"
+            if code == 224:
+                style = rng.choice(["jfif", "jfxx", "rand"])
+            if code == 238:
+                style = rng.choice([{1: "adobe0", 3: "adobe0", 4: "adobe0"}[len(CSCOMPS[CSNUM[cs]])], "adobe-short", "rand"])
+            ms.append([code, rng.choice([0, 5, 14, rng.range(0, 300)]), rng.next(), style])
+        ms = rng.shuffle(ms)
+        cases.append({"kind": "xh", "api": "tj" if hi % 2 == 0 or any(x[0] == "t" and x[2] for x in st) else "jpeg", "cs": cs, "markers": ms,
+                      "icclen": rng.choice([rng.range(1, 2000), rng.range(1, 2000), CHUNK + rng.range(1, 40)]), "iccseed": rng.next(),
+                      "iccpos": rng.choice([0, -1, 1, 2]), "steps": [list(x) for x in st]})
+    return cases
+
+
+def run_xh(ctx, R, cases):
+    srcl = []
+    for c in cases:
+        ds = [(m[0], marker_data(m)) for m in c["markers"]]
+        icc = content(c["iccseed"], c["icclen"])
+        pos = c["iccpos"] if c["iccpos"] <= len(ds) else -1
+        srcl.append("jc 16 16 %s 1x1,1x1,1x1,1x1 8 b 1 0 0 - d d %d %s %s" % (c["cs"], pos, hx(icc), ",".join("%d:%s" % (code, d.hex()) for code, d in ds)))
+    srcs = R.harness(srcl, lambda i: cases[i])
+    rdl = ["rd %s %s" % (ALLSAVE, o[3:]) if o.startswith("ok ") else "-" for o in srcs]
+    srd = R.harness(rdl, lambda i: cases[i])
+    hl = []
+    for c, o in zip(cases, srcs):
+        steps = ",".join("t%d.%d" % (x[1], x[2]) if x[0] == "t" else "h%d" % x[1] for x in c["steps"])
+        hl.append("xfh %s %s %s" % (c["api"], steps, o[3:]) if o.startswith("ok ") else "-")
+    outs = R.harness(hl, lambda i: cases[i])
+    ml, meta = [], []
+    for ci, (c, o, h) in enumerate(zip(cases, outs, srd)):
+        if not o.startswith("ok") or not h.startswith("hdr"):
+            if srcs[ci].startswith("ok "):
+                ctx.violation("transform history failed: " + o[:60], {"case": c}, signature="xh-failed:%s" % c["api"])
+            continue
+        kv = dict(x.split("=", 1) for x in h.split() if "=" in x)
+        jcs = int(kv["cs"])
+        wj, wa = jcs in (1, 3), jcs in (2, 4, 5)
+        src = bytes.fromhex(srcs[ci][3:])
+        ssegs, _ = parse(src)
+        shead = [s for s in ssegs[:next(i for i, s in enumerate(ssegs) if not is_appcom(s[0]))]]
+        res = o.split()[1:]
+        ti = 0
+        hist = []
+        for x in c["steps"]:
+            if x[0] == "h":
+                hist.append("h%d" % (x[1] if c["api"] == "tj" else 2))
+                continue
+            eopt = 0 if x[2] else x[1]
+            r = res[ti] if ti < len(res) else "-"
+            ti += 1
+            if r == "-" or r == "err":
+                ctx.violation("transform step %s of history failed" % (x,), {"case": c}, signature="xh-failed:%s" % c["api"])
+                break
+            osegs, _ = parse(bytes.fromhex(r))
+            if osegs is None:
+                ctx.violation("transformed stream unparsable", {"case": c}, signature="xh-unparsable")
+                break
+            ohead = [s for s in osegs[:next(i for i, s in enumerate(osegs) if not is_appcom(s[0]))]]
+            exp = []
+            for code, d in shead:
+                if not policy(eopt, code):
+                    continue
+                if wj and code == 0xE0 and len(d) >= 5 and d[:5] == b"JFIF\0":
+                    continue
+                if wa and code == 0xEE and len(d) >= 5 and d[:5] == b"Adobe":
+                    continue
+                exp.append((code, d))
+            got = ohead[1:]
+            failed = got != exp
+            hdesc = ",".join(hist) or "-"
+            if failed:
+                ctx.violation("copy option %d%s after history [%s] on the same %s: extra markers of the output are not the sub-list the CURRENT option "
+                              "specifies: got %s expected %s" % (x[1], " +TJXOPT_COPYNONE" if x[2] else "", hdesc,
+                                                                 "tj handle" if c["api"] == "tj" else "jpeg_decompress_struct",
+                                                                 [(a, len(b)) for a, b in got][:12], [(a, len(b)) for a, b in exp][:12]),
+                              {"case": c, "step": x, "history": hdesc}, signature="copy-history:%d:%s" % (eopt, c["api"]))
+            ml.append("copyh %s %d %d %d %d %s" % (hdesc, eopt, eopt, int(wj), int(wa), hx(rebuild(ssegs, b""))))
+            meta.append((ci, "x" + "".join(" m %d %d %s ;" % (a, len(b), fnv(b)) for a, b in got), failed, hdesc, eopt))
+            ctx.count("xh-%s-opt%d-after-%s" % (c["api"], eopt, "wider" if hist else "nothing"), 1, ("xh", c["api"], hdesc, eopt, tuple((a, len(b)) for a, b in got)))
+            hist.append("s%d" % eopt)
+    mres = R.model(ml)
+    for (ci, got, failed, hdesc, eopt), m in zip(meta, mres):
+        R.corr("copy-history", "option %d after [%s]" % (eopt, hdesc), m, got, cases[ci], failed)
+
+
 # ------------------------------------------------------------------- known-finding probes
 def run_probes(ctx, R):
     """Regression cases of the two defects found with this check and since fixed in the tree (design/C16.md,
@@ -905,7 +1060,7 @@ def run(ctx):
     flavours = ["simd"] if not ctx.thorough() else ["simd", "asan"]
     exes = {fl: ctx.cc("c16", ["c16.c"], fl, libs=("turbojpeg",)) for fl in flavours}
     R = Runner(ctx, exes, drv)
-    runners = {"icc": run_icc, "mk": run_mk, "hp": run_hp, "xf": run_xf}
+    runners = {"icc": run_icc, "mk": run_mk, "hp": run_hp, "xf": run_xf, "xh": run_xh}
     if ctx.replay:
         r = json.load(open(ctx.replay))
         c = r.get("case")
@@ -930,6 +1085,7 @@ def run(ctx):
     run_hp(ctx, R, hp_cases(ctx))
     ctx.log("header stream done")
     run_xf(ctx, R, xf_cases(ctx))
+    run_xh(ctx, R, xh_cases(ctx))
     ctx.log("copy stream done")
     return finish(ctx, R)
 
